@@ -1536,8 +1536,13 @@ def _sec_kabsch(ctx, rng, n_cases):
             n = (10007, 2000)[i]         # every run has a structure beyond 10 000 atoms
         scale = float(rng.choice([1, 10, 100]))
         dt = np.float64 if rng.random() < 0.6 else np.float32
+        far = rng.random() < 0.1
+        if i == 0:
+            # a compact float32 structure of > 10 000 atoms far from the origin: sums accumulated in single precision
+            # are off by whole units here (fixed: see findings.d/C17.json)
+            kind, scale, dt, far = "general", 1.0, np.float32, True
         c = _points(rng, kind, n, scale)
-        if rng.random() < 0.1:
+        if far:
             c = c + rng.choice([-1, 1], 3) * 1e4      # far from the origin, as in large assemblies
         c = c.astype(dt)
         R, rk = _rand_rotation(rng)
@@ -1556,7 +1561,7 @@ def _sec_kabsch(ctx, rng, n_cases):
         origin = None if rng.random() < 0.7 else rng.normal(0, scale, 3)
         s = _structure(_present(c, lay), elements)
         mag = float(np.abs(c).max()) + float(np.abs(t).max()) + 1.0
-        tol = (1e-4 if dt == np.float32 else 1e-9) * mag
+        tol = (1e-5 if dt == np.float32 else 1e-9) * mag
         if r32:
             # a float32 rotation matrix is orthogonal up to 2^-24 per entry: the image is a rigid copy up to ~2e-7 x extent
             tol = max(tol, 2e-6 * mag)
